@@ -211,7 +211,7 @@ OPEN = ['function ff():', 'if aa:', 'while aa:', 'for vv in aa:', 'async functio
 BODY = ['xx = 1', 'ff()', '# note', '']
 
 
-def core_eof(o1, o2, nbody, tail):
+def core_eof(o1, o2, nbody, tail, start10=False):
     lines = [_pick(OPEN, o1)]
     if o2 > 0:
         inner = _pick(OPEN, o2 - 1)
@@ -224,10 +224,25 @@ def core_eof(o1, o2, nbody, tail):
         lines = ['zz = 1', 'yy = 2 ' + chr(92)]
     elif tail == 3:
         lines = ['zz = 1', 'yy = 2 ' + chr(92), '   ', '# c']
-    info = {{'lines': lines}}
+    elif tail == 4:
+        lines = ['zz = 1', chr(92)]
+    elif tail == 5:
+        lines = ['zz = 1', '  ' + chr(92) + ' ', '', '# c']
+    elif tail == 6:
+        lines.append('endfunction')            # closes the function while an inner block may still be open
+        inner = lines[1].strip() if len(lines) > 2 else ''
+        if not (lines[0].startswith('function') or lines[0].startswith('async')) or not (inner.startswith(('if ', 'while ', 'for ')) and inner.endswith(':')):
+            return True, {{}}
+    start = 10 if start10 else 1
+    info = {{'lines': lines, 'start': start}}
     try:
-        model = parse_script(chr(10).join(lines))
-    except BareScriptParserError:
+        model = parse_script(chr(10).join(lines), start)
+    except BareScriptParserError as exc:
+        # the reported position must be a line of the input: number offset by the start line, text equal to that line
+        k = exc.line_number - start if isinstance(exc.line_number, int) else -1
+        if exc.error.startswith('Missing end') and not (0 <= k < len(lines) and lines[k].strip() == exc.line.strip()):
+            info.update(clause='end-of-input error does not name the line of the block left open', line_number=exc.line_number, line=exc.line)
+            return False, info
         return True, {{}}
     except Exception as exc:
         info['clause'] = 'exception other than BareScriptParserError: ' + type(exc).__name__
@@ -283,8 +298,8 @@ def plan(tier, seed, workdir):
         path = hgen.write_module(workdir, f'c06_pos_k{kind}', body, stub=False)
         hgen.ch_tasks(p, path, 'pos', timeout, twin_timeout=60, est=timeout / 2, family='E1 error position', statement_kind=kind)
     body = CORE.format(kind=0, first=0)
-    body += hgen.harness('eof', 'o1: int, o2: int, nbody: int, tail: int', ['0 <= o1 <= 4', '0 <= o2 <= 5', '0 <= nbody <= 4', '0 <= tail <= 3'],
-                         core_call='core_eof(o1, o2, nbody, tail)')
+    body += hgen.harness('eof', 'o1: int, o2: int, nbody: int, tail: int, start10: bool', ['0 <= o1 <= 4', '0 <= o2 <= 5', '0 <= nbody <= 4', '0 <= tail <= 6'],
+                         core_call='core_eof(o1, o2, nbody, tail, start10)')
     path = hgen.write_module(workdir, 'c06_eof', body, stub=False)
     hgen.ch_tasks(p, path, 'eof', timeout, twin_timeout=60, est=60, family='E1 end-of-input shapes')
     firsts = range(23) if tier == 'thorough' else range(0, 23, 2)
